@@ -245,6 +245,17 @@ def main(argv):
     a = ap.parse_args(argv)
     seed = int(os.environ.get('VERIF_SEED', '1'))
     ctx = Ctx(a.prop, a.tier if a.tier in ('quick', 'thorough') else 'quick', seed)
+    import tempfile, common
+    root = tempfile.mkdtemp(prefix='ergo-check-%s-' % a.prop)
+    os.environ['VERIF_SCRATCH'] = root
+    common.SCRATCH_ROOT = root
+    try:
+        return run(ctx, a)
+    finally:
+        shutil.rmtree(root, ignore_errors=True)
+
+
+def run(ctx, a):
     prepare(ctx)
     grep_gate(ctx)
     compile_props(ctx)
